@@ -169,9 +169,36 @@ impl Scripted {
                 Message::default().id(id).kind(eat as u16).with_content(Payload { bytes, _life: Life::new(2) })
             };
             match c["c"].as_str().unwrap() {
-                "send" => send(mk(c["size"].as_u64().unwrap(), c["eat"].as_u64().unwrap()), gate_name(c["g"].as_str().unwrap())),
-                "sendin" => send_in(mk(c["size"].as_u64().unwrap(), c["eat"].as_u64().unwrap()), gate_name(c["g"].as_str().unwrap()), d),
-                "sched" => schedule_in(mk(1, c["eat"].as_u64().unwrap()), d),
+                // every module but a uses the other spellings of the same calls: absolute times (send_at / schedule_at /
+                // shutdow_and_restart_at) and a gate given as (name, index) resp. as GateRef
+                "send" => {
+                    let m = mk(c["size"].as_u64().unwrap(), c["eat"].as_u64().unwrap());
+                    let g = gate_name(c["g"].as_str().unwrap());
+                    if self.name == "a" {
+                        send(m, g)
+                    } else if self.k % 2 == 0 {
+                        send(m, (g, 0))
+                    } else {
+                        send_at(m, current().gate(g, 0).expect("gate exists"), SimTime::now())
+                    }
+                }
+                "sendin" => {
+                    let m = mk(c["size"].as_u64().unwrap(), c["eat"].as_u64().unwrap());
+                    let g = gate_name(c["g"].as_str().unwrap());
+                    if self.name == "a" {
+                        send_in(m, g, d)
+                    } else {
+                        send_at(m, (g, 0), SimTime::now() + d)
+                    }
+                }
+                "sched" => {
+                    let m = mk(1, c["eat"].as_u64().unwrap());
+                    if self.name == "a" {
+                        schedule_in(m, d)
+                    } else {
+                        schedule_at(m, SimTime::now() + d)
+                    }
+                }
                 "setcatch" => {
                     let me = current();
                     let mut st = me.stereotyp();
@@ -179,7 +206,13 @@ impl Scripted {
                     me.set_stereotyp(st);
                 }
                 "shutdown" => current().shutdown(),
-                "restart" => current().shutdow_and_restart_in(d),
+                "restart" => {
+                    if self.name == "a" {
+                        current().shutdow_and_restart_in(d)
+                    } else {
+                        current().shutdow_and_restart_at(SimTime::now() + d)
+                    }
+                }
                 "panic" => {
                     let at = LOG.with(|l| l.borrow().len());
                     PANICS.with(|p| p.borrow_mut().push((self.name.clone(), self.inc, at)));
